@@ -67,6 +67,15 @@ theorem olareg_locked_claims : ∀ c ∈ lockedCalls, c.2.1 = true → c.2.2.1 =
 theorem olareg_token_takes :
     tokenTakes = [("dir.RepoGet", true), ("dirRepo.gc", false), ("mem.RepoGet", true), ("memRepo.gc", false)] := rfl
 
+/-- the request count of a repository is only raised by the holder of the repository's token or before the repository is
+    published — the only `add` step of the protocol model; an `Add` outside it can overlap a collector's `Wait` -/
+theorem olareg_add_under_token : ∀ a ∈ wgAdds, a.2.2.2.2.1 = true → a.2.2.1 = true ∨ a.2.2.2.1 = true := by
+  have h : Lk.wgAddsOk = true := by decide
+  intro a ha ht
+  have := List.all_eq_true.mp h a ha
+  simp [Lk.wgAddOk, ht] at this
+  exact this
+
 /-- **the lock programs of olareg cannot hang** (partial, see the module comment): in any configuration — any number of
     threads, repositories, sessions — in which each thread's (held, wanted) pairs are, at class level, among the statically
     derived edges, not everybody is blocked -/
